@@ -117,6 +117,7 @@ class LiSweep(Slice):
 
 class NameIndex(Slice):
     name = "name-index"
+    case_timeout = 60
 
     def gen(self, rng, index, tier):
         return {"seed": rng.getrandbits(48)}
@@ -147,7 +148,8 @@ class NameIndex(Slice):
                 for boff in (2047, 2048, 2049, 4095, 4096, 4097):
                     for d in (-1, 0, 1):
                         marks.add(boff // size + d)
-                idxs = sorted(i for i in marks if 0 <= i < nel) + [rng.randrange(nel) for _ in range(4)]
+                idxs = sorted(i for i in marks if 0 <= i < nel)
+                idxs = sorted(rng.sample(idxs, min(6, len(idxs)))) + [rng.randrange(nel) for _ in range(2)]
                 cl.add("long")
             for idx in [None] + idxs:
                 ld = {"byte": "lbu", "half": "lhu", "word": "lw", "string": "lbu", "zero": "lw"}[kind]
